@@ -510,4 +510,55 @@ private:
     }
 };
 
+// A producer that does not de-duplicate its block tables (legal in RFC 8618): in two blocks out of three an equal copy of an
+// ip-address / name-rdata entry is appended to the table and some of the references to the original are pointed at the copy.
+// `root` is a parsed C-DNS file; returns the number of entries duplicated.
+inline unsigned duplicate_table_entries(Node& root, sim::Rng& q) {
+    unsigned n_dups = 0;
+    if (root.kids.size() != 3) return 0;
+    for (auto& blk : root.kids[2].kids) {
+        if (!blk.is_map() || !q.chance(2, 3)) continue;
+        Node* tables = nullptr;
+        for (size_t i = 0; i + 1 < blk.kids.size(); i += 2) if (blk.kids[i].is_uint() && blk.kids[i].arg == 2) tables = &blk.kids[i + 1];
+        if (!tables || !tables->is_map()) continue;
+        for (int table = 0; table <= 2; table += 2) {   // 0 = ip-address, 2 = name-rdata
+            Node* tab = nullptr;
+            for (size_t i = 0; i + 1 < tables->kids.size(); i += 2) if (tables->kids[i].is_uint() && tables->kids[i].arg == (uint64_t)table) tab = &tables->kids[i + 1];
+            if (!tab || !tab->is_array() || tab->kids.empty()) continue;
+            uint64_t orig = q.below(tab->kids.size()), copy = tab->kids.size();
+            Node dup = tab->kids[orig];
+            tab->kids.push_back(dup);
+            n_dups++;
+            // references to table `table`: (container key in block, member key) pairs; -1 container = inside block tables
+            auto repoint = [&](Node& map, uint64_t member) {
+                for (size_t i = 0; i + 1 < map.kids.size(); i += 2)
+                    if (map.kids[i].is_uint() && map.kids[i].arg == member && map.kids[i + 1].is_uint() && map.kids[i + 1].arg == orig && q.coin()) map.kids[i + 1].arg = copy;
+            };
+            for (size_t i = 0; i + 1 < blk.kids.size(); i += 2) {
+                if (!blk.kids[i].is_uint()) continue;
+                uint64_t key = blk.kids[i].arg;
+                Node& v = blk.kids[i + 1];
+                if (key == 3 && v.is_array()) for (auto& qr : v.kids) {   // query/responses
+                    if (!qr.is_map()) continue;
+                    if (table == 0) repoint(qr, 1); else { repoint(qr, 7); for (size_t z = 0; z + 1 < qr.kids.size(); z += 2) if (qr.kids[z].is_uint() && qr.kids[z].arg == 10 && qr.kids[z + 1].is_map()) repoint(qr.kids[z + 1], 0); }
+                }
+                if (key == 4 && v.is_array() && table == 0) for (auto& a : v.kids) if (a.is_map()) repoint(a, 2);
+                if (key == 5 && v.is_array() && table == 0) for (auto& m : v.kids) if (m.is_map()) repoint(m, 1);
+                if (key == 2 && v.is_map()) for (size_t t2 = 0; t2 + 1 < v.kids.size(); t2 += 2) {
+                    if (!v.kids[t2].is_uint() || !v.kids[t2 + 1].is_array()) continue;
+                    uint64_t tk = v.kids[t2].arg;
+                    for (auto& e : v.kids[t2 + 1].kids) {
+                        if (!e.is_map()) continue;
+                        if (table == 0 && (tk == 3 || tk == 8)) repoint(e, 0);                       // signature / mm-data server address
+                        if (table == 2 && tk == 3) repoint(e, 15);                                    // signature opt rdata
+                        if (table == 2 && tk == 5) repoint(e, 0);                                     // question name
+                        if (table == 2 && tk == 7) { repoint(e, 0); repoint(e, 3); }                  // rr name, rdata
+                    }
+                }
+            }
+        }
+    }
+    return n_dups;
+}
+
 }  // namespace ref
